@@ -57,7 +57,13 @@ def _split(prop, tier, seed, replay=None):
     return run_split.run(prop, tier, seed, replay)
 
 
+def _wr(prop, tier, seed, replay=None):
+    from . import run_writers
+    return run_writers.run(prop, tier, seed, replay)
+
+
 CHECKS = {
+    'C02': _wr,
     'C17': _split,
     'C06': _gr, 'C09': _gr, 'C07': _gr, 'C08': _gr,
     'C10': _trn,
